@@ -130,6 +130,18 @@ def main():
                                "found_input": False,
                                "replay": {"kind": "broken-obligation", "broken_theorems": broken, "broken_correspondence": corr_broken}})
 
+    # 4b. standing search: properties with recorded (known, unrepaired) findings keep their oracle running so that the
+    #     findings stay visible as KNOWN-FINDING lines and any NEW violation of the same property is still reported
+    if not (broken or corr_broken) and hasattr(mod, "standing_search"):
+        try:
+            for v in mod.standing_search(ctx):
+                v.setdefault("found_input", True)
+                violations.append(v)
+            search_info = {"candidates": getattr(mod, "LAST_SEARCH_CANDIDATES", None), "hits": len(violations), "standing": True}
+        except Exception as e:
+            traceback.print_exc()
+            notes.append(f"standing search crashed: {type(e).__name__}: {e}")
+
     # 5. known findings / report
     n_viol = 0
     seen = set()
